@@ -231,6 +231,31 @@ def check_state(p, cls, npath, bases, Root, DestDir, bad, wit):
         exp = exp.replace('/', '\\')
     if got != exp:
         bad('realise-join', wit, 'got %r expected %r' % (got, exp))
+    # law 8b: realise against VARIABLES (what the backends write) == ordinary joining of
+    # [$(DESTDIR)] + $(root) + suffix, for every root, with DESTDIR defined and undefined
+    for with_dest in (False, True):
+        for exe in (False, True):
+            vs = {r: ('<%s>' % r.name if r.name != 'builddir' else None) for r in bases if r != DestDir.destdir}
+            if with_dest:
+                vs[DestDir.destdir] = '<DEST>'
+            try:
+                got = p.realize(vs, executable=exe, localize=False)
+            except Exception as e:     # noqa
+                bad('realise-variables', wit, 'realize raises %r (destdir defined: %s)' % (e, with_dest))
+                continue
+            rootv = None if p.root == Root.absolute else vs[p.root]
+            if exe and rootv is None and '/' not in p.suffix:
+                rootv = '.'
+            pre = ('<DEST>' if (p.destdir and with_dest) else '') + (rootv or '')
+            if p.root == Root.absolute:
+                exp = pre + p.suffix
+            elif pre and p.suffix:
+                exp = pre + '/' + p.suffix
+            else:
+                exp = pre or p.suffix or '.'
+            if str(got) != exp:
+                bad('realise-variables', wit, '%r (DESTDIR %sdefined, executable=%s): got %r expected %r'
+                    % (state(p), '' if with_dest else 'un', exe, str(got), exp))
     # as_directory / reroot / ext laws
     d = p.as_directory()
     if d != p or not d.directory:
